@@ -86,7 +86,7 @@ def run(case, out):
     for ln in range(n + 1):
         for w in itertools.product(alpha, repeat=ln):
             want = ref.accepts(w)
-            got = out.call("accepts", fa.accepts, G.word_values(case, w))
+            got = out.call("accepts", fa.accepts, G.word_arg(case, w))
             if got is FAILED:
                 bad = True
                 break
@@ -118,7 +118,7 @@ def run(case, out):
             # the result's own accepts() must agree with its structure too
             for ln in range(3):
                 for wd in itertools.product(alpha, repeat=ln):
-                    got = out.call(op + ".accepts", res.accepts, G.word_values(case, wd))
+                    got = out.call(op + ".accepts", res.accepts, G.word_arg(case, wd))
                     if got is not FAILED and got != ref.accepts(wd):
                         out.fail(op + ":accepts-of-result", word=list(wd))
                         break
